@@ -29,6 +29,8 @@ CHECKS = {
          'streaming state machine vs batch reference model under seeded producer schedules + purity fingerprints'),
  'C14': ('Randomness behind a seam: holopy.core.prior.random is replaced by a simulator-owned recorder/feeder during sample(), so the arguments of every primitive draw are observed, Uniform/Gaussian samples must be the primitive output itself, every BoundedGaussian value must be a recorded draw inside the support with the requested shape (scalar for size=None), and under scripted adversarial-but-legal tail draws (chosen slots out of bounds for up to 8 rounds) sample() must return within a bounded number of primitive calls once the script ends (bounded liveness). Derived priors must combine the recorded base draws; generate_guess must equal the documented draw for a seed whatever foreign draws preceded it. Density / guess / scale / identity / rejection clauses are evaluated on the same histories.', '5 C14',
          'RNG-seam simulation with scripted adversarial variates, bounded-liveness check, reference model of the samplers'),
+ 'C11': ('Seeded programs over a Model treated as a state machine: priors (named / unnamed, equal definitions with distinct identity, deliberate name collisions) are placed - shared, wrapped in arithmetic / ufunc / complex transformations, in lists - at a random subset of sites of a sphere, layered sphere or sphere collection, of a lens theory, of alpha and of the optics; then a random sequence of queries, add_tie calls (legal and illegal subsets, composing), writes into every object the model hands back, scatterer from_parameters round trips (incl. rigid clusters) and restarts through the text form (save, kill the interpreter, load in a pristine one). After every step a reference model (partition of sites by prior identity with union-find for ties + one expression tree per site) must agree: parameter count, unique names, every probe value at every place its prior was used, transformations applied, fixed values untouched, list- and dict-keyed calls equal, guesses used, illegal ties refused without effect, the model never modified by a query, and the reloaded model answering every query like the saved one.', '5 C11',
+         'state-machine simulation against a union-find reference model, with restart-through-text and aliasing (purity) faults'),
 }
 
 def main():
